@@ -14,7 +14,7 @@ for d in sorted(os.listdir(ROOT)):
     m = re.search(r"RESULT demo_clean_rc=(\d+) demo_patched_rc=(\d+) suite=\[(.*?)\] check_rc=(\d+)", log)
     viol = [ln for ln in log.splitlines() if ln.startswith("VIOLATION")]
     rechecks = {}
-    for name in ("eval_recheck16.log", "eval_scale3.log"):
+    for name in ("eval_recheck16.log", "eval_scale3.log", "eval_recheck_s5.log", "eval_recheck_s6.log"):
         if os.path.exists(os.path.join(p, name)):
             t = open(os.path.join(p, name)).read()
             mm = re.search(r"check_rc=(\d+)", t)
